@@ -745,3 +745,20 @@ Lemma silent_reader_both_refuted :
   dl_read (silent_reader Both (mkDL 0 0) 0 [50000; 100000; 150000]) = 210000 /\
   2 * keep_alive_interval_ms = 60000.
 Proof. vm_compute. split; reflexivity. Qed.
+
+(* ------------------------------------------------------------------ the timeout APPLIED *)
+Lemma always_rearmed_survives : forall arrivals t,
+  silences_within_timeout t arrivals -> alive Always (t + read_timeout_ms) arrivals = true.
+Proof.
+  induction arrivals as [|t' rest IH]; intros t H; [reflexivity|].
+  cbn [silences_within_timeout] in H. destruct H as (_ & Hle & Hrest).
+  cbn [alive rearm]. destruct (N.ltb_spec (t + read_timeout_ms) t') as [Hlt|_]; [lia|].
+  apply IH, Hrest.
+Qed.
+
+Lemma lazy_rearm_refuted :
+  silences_within_timeout 0 [24000; 66000] /\
+  alive Lazy (0 + read_timeout_ms) [24000; 66000] = false /\
+  alive Always (0 + read_timeout_ms) [24000; 66000] = true.
+Proof. split; [|split]; [|vm_compute; reflexivity|vm_compute; reflexivity].
+  cbn [silences_within_timeout]. vm_compute. repeat split; discriminate. Qed.
